@@ -63,20 +63,29 @@ def base_place(n):
 
 
 def project(atom, i):
+    # projections are bounded: cyclic definitions (a tuple stored back into the container it was read from) must not grow
+    # atoms without limit
+    if len(atom) >= 5:
+        return atom
     if atom[0] in ("l", "s", "param", "self", "enum") and atom != ("self", "*"):
         return atom + (i,)
     return atom
 
 
 class Slicer:
-    def __init__(self, fn):
+    def __init__(self, fn, control=False):
+        """control=True adds implicit flows: a value assigned under a condition depends on that condition (used for
+        seeds: how often a pass counter is incremented is decided by the tests guarding the increment). Off for the
+        provenance of guarded register writes, whose guards compare with the registers by design"""
         self.fn = fn
+        self.control = control
         self.defs = defaultdict(list)       # variable atom -> [set(atoms)]
         self.param_root = {}                # local id -> root atom
         self.names = {}
         for pi, p in enumerate(fn.get("params", [])):
             self._pidx = pi
             self._bind_params(p["pat"])
+        self._tree = hirq.Tree(fn["hir"])
         self._walk(fn["hir"])
         self._cache = {}
 
@@ -152,8 +161,11 @@ class Slicer:
                 self._bind(x["pat"], self.deps(x["init"]))
             elif k == "Assign":
                 self._assign_value(x["l"], x["r"])
+                cd = self._control_deps(x)
+                if cd:
+                    self._assign(x["l"], cd | self.deps(x["l"]))
             elif k == "AssignOp":
-                self._assign(x["l"], self.deps(x["r"]) | self.deps(x["l"]))
+                self._assign(x["l"], self.deps(x["r"]) | self.deps(x["l"]) | self._control_deps(x))
             elif k == "Match":
                 d = self.deps(x["e"])
                 fl = x.get("src") == "ForLoopDesugar"
@@ -165,6 +177,27 @@ class Slicer:
                 self._method_effects(x)
             elif k == "Call":
                 self._call_effects(x)
+
+    def _control_deps(self, node):
+        """implicit flow: a value assigned under a condition depends on that condition (how often `n += 1` runs is
+        decided by the tests that guard it). Conditions of enclosing ifs / matches / while guards, up to the function"""
+        d = set()
+        if not self.control:
+            return d
+        child = node
+        for a in self._tree.ancestors(node):
+            if a["k"] == "If" and child is not a["c"]:
+                if not hirq.in_log_macro(a):
+                    d |= self.deps(a["c"])
+            elif a["k"] == "Match" and a.get("src") == "Normal" and child is not a["e"]:
+                d |= self.deps(a["e"])
+            elif a["k"] == "Closure":
+                break
+            child = a
+        # the condition is read as "depends on the state of these fields", without chasing how the fields were written
+        # inside this function (a pass counter guarded by `nb_empty > 0` depends on nb_empty, not on everything that
+        # ever decremented it)
+        return {(("self",) + x[1:]) if x[0] == "s" else x for x in d}
 
     def _iter_items(self, next_match):
         # the scrutinee is Iterator::next(&mut iter); iter's deps come from into_iter(expr)
